@@ -102,8 +102,13 @@ pub async fn clear<P: AsRef<Path>>(cache: P) -> Result<()> {
                     cache.display()
                 )
             })?
-            .flatten()
         {
+            let entry = entry.with_context(|| {
+                format!(
+                    "Failed to read directory contents while clearing cache, at {}",
+                    cache.display()
+                )
+            })?;
             crate::async_lib::remove_dir_all(entry.path())
                 .await
                 .with_context(|| format!("Failed to clear cache at {}", cache.display()))?;
@@ -198,8 +203,13 @@ pub fn clear_sync<P: AsRef<Path>>(cache: P) -> Result<()> {
                     cache.display()
                 )
             })?
-            .flatten()
         {
+            let entry = entry.with_context(|| {
+                format!(
+                    "Failed to read directory contents while clearing cache, at {}",
+                    cache.display()
+                )
+            })?;
             fs::remove_dir_all(entry.path())
                 .with_context(|| format!("Failed to clear cache at {}", cache.display()))?;
         }
